@@ -19,6 +19,7 @@ def run(rep):
     rep.guard(f5, rep, w)
     rep.guard(f6, rep, w)
     rep.guard(f7, rep, w)
+    rep.guard(f8, rep, w)
     import c06
     rep.guard(c06.s5, rep, w)   # a yield / switch must not close the suspended fiber's upvalues (its slots stay live)
     rep.guard(c06.s6, rep, w)   # a finishing fiber closes the upvalues of its body frame before the frame goes
@@ -390,3 +391,52 @@ def f7(rep, w):
                 '- a live local of the caller - is overwritten by the error' % callee_name(t).rsplit('::', 1)[-1], f.loc(t.get('sp')))
     if n < 1:
         raise Broken('C09', 'floor', 'call_native: no argument removal found')
+
+
+def f8(rep, w, prop='C09'):
+    """what a fiber switch carries is decided by the *number* of arguments alone: `Some(top of stack)` for one argument, `None` for
+    none. load_fiber / unload_fiber pop the argument exactly when they are given `Some`, so an Option that also depends on the
+    argument's value ("call(nil) means call()") leaves the nil on the caller's stack: the stack height after the call then
+    depends on run-time data and every later local of that function is one slot off."""
+    r = rep.rule('F8', 'the value handed to load_fiber / unload_fiber is Some(top of stack) or None according to the argument count only', floor=2)
+    VM_ = 'yarel::vm::Vm::'
+    n = 0
+    for f in sorted(w.yarel.fns.values(), key=lambda x: x.path):
+        if not f.file.endswith('core.rs'):
+            continue
+        for bi, t in f.calls():
+            if callee_name(t) not in (VM_ + 'load_fiber', VM_ + 'unload_fiber'):
+                continue
+            n += 1
+            org = origins(f)
+            arg = t['args'][-1]
+            pl = op_place(arg)
+            roots = set()
+            for q in org.get(pl['l'], ()) if pl else ():
+                if q[0][0] == 'call':
+                    roots.add(q[0][2].rsplit('::', 1)[-1] if q[0][2] else '?')
+                elif q[0][0] == 'const':
+                    roots.add('const')
+                elif q[0][0] == 'arg':
+                    roots.add('arg')
+            extra = sorted(x for x in roots if x not in ('peek', 'native_arg', 'unchecked_native_arg', 'const'))
+            # every branch that decides between the two is a test of the argument count
+            dom = f.dominators()
+            defs = [b for b in f.normal_blocks() for s_ in f.blocks[b]['s'] if (s_.get('d') or {}).get('l') == (pl or {}).get('l') and not s_['d'].get('p')]
+            bad_cond = []
+            for b in f.normal_blocks():
+                tt = f.blocks[b]['t']
+                if tt['t'] != 'switch':
+                    continue
+                succ = f.succs()[b]
+                controls = any(any(s0 in dom.get(d_, ()) for d_ in defs) and not all(s0 in dom.get(d_, ()) for d_ in defs) for s0 in succ)
+                if not controls:
+                    continue
+                qs = org.get((op_place(tt['d']) or {}).get('l'), ())
+                if not qs or not all(q[0] == ('arg', 2) for q in qs):
+                    bad_cond.append(f.loc(tt.get('sp')))
+            r.check(not extra and not bad_cond, '%s -> %s: Some(top) / None by argument count' % (f.path.rsplit('::', 1)[-1], callee_name(t).rsplit('::', 1)[-1]),
+                    '%s builds the value it hands to %s from %s under conditions other than the argument count (%s): the switch pops the argument only when it is given Some, so '
+                    'the stack height after the call depends on the argument\'s value' % (f.path, callee_name(t).rsplit('::', 1)[-1], extra or 'the top of the stack', bad_cond), f.loc(t.get('sp')))
+    if n < 2:
+        raise Broken(prop, 'floor', 'natives that switch fibers: %d' % n)
